@@ -205,7 +205,10 @@ func genHistory(rt *rapid.T) *History {
 				op, ok = Op{Op: "set", Dst: src, I: s.n + rapid.IntRange(0, 2).Draw(rt, "beyond"), Vals: vals(1), Oob: true, ViaVar: rapid.Bool().Draw(rt, "viaVar")}, true
 			case c < 989:
 				// planted: slice bounds out of range (beyond any possible capacity is not knowable; use i > j through variables, or j > exact capacity)
-				if s.exact && !s.isNil {
+				if rapid.IntRange(0, 2).Draw(rt, "negativebound") == 0 {
+					// a bound that is negative at run time (through variables: a negative constant does not compile)
+					op, ok = Op{Op: "sub", Dst: dst, Src: src, I: 0, J: -1 - rapid.IntRange(0, 1).Draw(rt, "below"), Form: 0, Oob: true, ViaVar: true}, true
+				} else if s.exact && !s.isNil {
 					op, ok = Op{Op: "sub", Dst: dst, Src: src, I: 0, J: s.capacity + 1 + rapid.IntRange(0, 2).Draw(rt, "beyond"), Form: 0, Oob: true}, true
 				} else if s.n >= 1 {
 					op, ok = Op{Op: "sub", Dst: dst, Src: src, I: s.n, J: s.n - 1, Form: 0, Oob: true, ViaVar: true}, true
